@@ -12,22 +12,22 @@
 (* The runs of every record are computed by the specification (MinOps).    *)
 (***************************************************************************)
 EXTENDS MinOut, MinOps, TraceLib
-VARIABLES started, seen, silent
-tvars == <<ovars, l, started, seen, silent>>
+VARIABLES started, seen, silent, closed
+tvars == <<ovars, l, started, seen, silent, closed>>
 NoCfg == [mode |-> "s2m", runs |-> <<>>, nw |-> 1]
-TInit == TrackInit /\ l = 1 /\ started = FALSE /\ seen = {} /\ silent = FALSE /\ MInitCfg(NoCfg)
+TInit == TrackInit /\ l = 1 /\ started = FALSE /\ seen = {} /\ silent = FALSE /\ closed = TRUE /\ MInitCfg(NoCfg)
 A(i) == Ev.a[i]
 W == Ev.t
-Skip == Consume /\ UNCHANGED <<ovars, started, seen, silent>>
-Keep == UNCHANGED <<started, seen, silent>>
+Skip == Consume /\ UNCHANGED <<ovars, started, seen, silent, closed>>
+Keep == UNCHANGED <<started, seen, silent, closed>>
 
 WinFor(b, w) == IF w = 0 THEN Len(b) ELSE w
 CfgOf(e) == [mode |-> e.mode, nw |-> e.nw,
              runs |-> [i \in 1..Len(e.recs) |-> RunsWM(Classes(e.recs[i]), WinFor(e.recs[i], e.w), e.m)]]
 
-TReset == /\ Is("reset") /\ (~started \/ Done) /\ Ev.nw >= 1
+TReset == /\ Is("reset") /\ (~started \/ (Done /\ closed)) /\ Ev.nw >= 1
           /\ (\E c \in {CfgOf(Ev)} : MReset(c))       \* (bound once: TLC re-evaluates plain operator arguments in actions)
-          /\ started' = TRUE /\ seen' = {} /\ silent' = (Ev.run = "cli") /\ Consume
+          /\ started' = TRUE /\ seen' = {} /\ silent' = (Ev.run = "cli") /\ closed' = FALSE /\ Consume
 TStart == Is("min.worker_start") /\ started /\ W \in Workers /\ pc[W] = "take" /\ Skip
 TBefTake == Is("min.before_take") /\ W \in Workers /\ pc[W] = "take" /\ Skip
 TTake == Is("seq.take") /\ W \in Workers /\ reader < N /\ Take(W) /\ held'[W] = A(1) /\ Consume /\ Keep
@@ -41,22 +41,22 @@ TExit == Is("min.worker_exit") /\ W \in Workers /\ pc[W] = "exit" /\ Skip
 TS2m == /\ Is("s2mline") /\ Done /\ mcfg.mode = "s2m"
         /\ Ev.rec \in 0..(N - 1) /\ Ev.rec \notin seen
         /\ Ev.runs = mcfg.runs[Ev.rec + 1]
-        /\ seen' = seen \cup {Ev.rec} /\ Consume /\ UNCHANGED <<ovars, started, silent>>
+        /\ seen' = seen \cup {Ev.rec} /\ Consume /\ UNCHANGED <<ovars, started, silent, closed>>
 \* m2s: the line of minimiser v lists exactly what the model's table holds for v, as a multiset; each key once
 SameBagSeq(p, q) == Len(p) = Len(q) /\ \A i \in 1..Len(p) : CountIn(p, p[i]) = CountIn(q, p[i])
 TM2s == /\ Is("m2sline") /\ Done /\ mcfg.mode = "m2s"
         /\ Ev.v \in DOMAIN table /\ Ev.v \notin seen
         /\ SameBagSeq(Ev.items, table[Ev.v])
-        /\ seen' = seen \cup {Ev.v} /\ Consume /\ UNCHANGED <<ovars, started, silent>>
+        /\ seen' = seen \cup {Ev.v} /\ Consume /\ UNCHANGED <<ovars, started, silent, closed>>
 TLines == /\ Is("outlines") /\ Done
           /\ Ev.n = Cardinality(seen)
           /\ Ev.n = (IF mcfg.mode = "s2m" THEN N ELSE Cardinality(DOMAIN table))
-          /\ Skip
-TEof == Is("eof") /\ (~started \/ Done) /\ Skip
+          /\ closed' = TRUE /\ Consume /\ UNCHANGED <<ovars, started, seen, silent>>
+TEof == Is("eof") /\ (~started \/ (Done /\ closed)) /\ Skip
 \* output files of the command line (no hooks): the model runs silently with one worker
 TSilent == /\ started /\ silent /\ ~Done
            /\ (Take(1) \/ WriteLine(1) \/ PushRec(1))
-           /\ UNCHANGED <<l, started, seen, silent>>
+           /\ UNCHANGED <<l, started, seen, silent, closed>>
 TNext == TSilent \/ TReset \/ TStart \/ TBefTake \/ TTake \/ TTakeNone \/ TAftTake \/ TWrite \/ TPush \/ TExit
          \/ TS2m \/ TM2s \/ TLines \/ TEof
 TSpec == TInit /\ [][TNext]_tvars
